@@ -114,7 +114,12 @@ pub struct Case {
 
 /// Pieces the generated texts are concatenated from ("\r" + "\n" pieces merge naturally).
 // (U+2028, U+2029, U+0085, VT and FF are line breaks elsewhere, not here: only \n, \r\n, \r terminate)
-const PIECES: [&str; 17] = ["a", "b", " ", "\n", "\r", "\r\n", "é", "漢", "😀", "𝒳", "", "\u{feff}", "\u{2028}", "\u{2029}", "\u{85}", "\u{b}\u{c}", "e\u{301}"];
+const PIECES: [&str; 25] = [
+    "a", "b", " ", "\n", "\r", "\r\n", "é", "漢", "😀", "𝒳", "", "\u{feff}", "\u{2028}", "\u{2029}", "\u{85}", "\u{b}\u{c}", "e\u{301}",
+    // the borders of the UTF-8 length classes and of the UTF-16 surrogate range, and one character of every
+    // 4-byte lead byte F0..F4
+    "\u{7f}\u{80}", "\u{7ff}\u{800}", "\u{d7ff}\u{e000}", "\u{ffff}\u{10000}", "\u{3ffff}\u{40000}", "\u{e0100}", "\u{fffff}\u{100000}", "\u{10ffff}",
+];
 const TERMS: [&str; 3] = ["\n", "\r", "\r\n"];
 
 fn show(text: &str) -> String {
